@@ -401,6 +401,16 @@ pub fn apply(op: usize, s: &mut TypeSpec, d: &mut Dna) -> Option<Fault> {
                 for f in v.fields.iter_mut() {
                     f.attrs.retain(|a| !(a.tr == Tr::Into && a.into_ty.as_deref() == Some(t.as_str())));
                 }
+                // sometimes a third (fourth, ..) candidate: "not exactly one" must not be decided by parity
+                if d.chance(40) {
+                    if let Some(proto) = v.fields.iter().find(|f| f.ty.src == t).map(|f| f.ty.clone()) {
+                        for f in v.fields.iter_mut() {
+                            if f.attrs.is_empty() && f.default_expect.is_none() && f.ty.src != t && d.chance(60) {
+                                f.ty = proto.clone();
+                            }
+                        }
+                    }
+                }
                 let same = v.fields.iter().filter(|f| crate::known::erase_lifetimes(&f.ty.src) == crate::known::erase_lifetimes(&t)).count();
                 // either no candidate at all or two same-typed ones; exactly one would be found automatically
                 if same == 1 {
